@@ -1098,6 +1098,36 @@ func genEqUnit(r *rand.Rand, id, tier string) string {
 		return v
 	}
 	if r.Intn(25) == 0 {
+		// two map[string]any of the same size whose members hold explicit nils (and the odd number), with ONE key that the
+		// other map does not have: a missing member is not a member that holds nil
+		n := 1 + r.Intn(3)
+		mk := func() *EVv { return &EVv{C: 'M', Ty: 2} }
+		x, y := mk(), mk()
+		odd := r.Intn(n)
+		for i := 0; i < n; i++ {
+			kx, ky := fmt.Sprintf("k%d", i), fmt.Sprintf("k%d", i)
+			if i == odd {
+				ky = "other"
+			}
+			val := func() *EVv {
+				if i != odd && r.Intn(3) == 0 {
+					return &EVv{C: 'J', Xs: []*EVv{{C: 'p', Ty: 1, S: strconv.Itoa(i)}}}
+				}
+				return &EVv{C: 'I'}
+			}
+			v := val()
+			x.Xs = append(x.Xs, &EVv{C: 'p', Ty: 16, S: kx})
+			y.Xs = append(y.Xs, &EVv{C: 'p', Ty: 16, S: ky})
+			x.Vs = append(x.Vs, v)
+			y.Vs = append(y.Vs, v)
+		}
+		a, b := V{T: 'E', E: x}, V{T: 'E', E: y}
+		if r.Intn(2) == 0 {
+			a, b = b, a
+		}
+		return a.String() + " | " + b.String() + " | mut:mapkey"
+	}
+	if r.Intn(25) == 0 {
 		// two maps with the same keys and values whose key TYPES differ (same kind): a type mismatch, reported as such
 		n := 1 + r.Intn(3)
 		x := &EVv{C: 'M', Ty: 9}
